@@ -18,7 +18,7 @@ CHECKS = {
     "C03": dict(engine="tla-kernelrun", technique="TLA+ model checking of the real IR; TensorAlgebra!SupportAt vs stored prefixes per compressed level",
                 text="Same exploration: for each compressed output level every stored prefix must be the prefix of a coordinate with structural support, computed by TensorAlgebra!SupportAt over the stored sets of the packed inputs."),
     "C04": dict(engine="tla-kernelrun", technique="TLA+ model checking of assemble/compute/evaluate histories (freeze, revalue) + native history trace validation",
-                text="Each behaviour takes the three IR functions of one generated module through evaluate; assemble; freeze; compute; re-value; compute; re-value(0); compute on the abstract machine; structure arrays are read-only and vals non-reallocatable for compute, results are compared with evaluate and with Denote. The same history is run on the real LLVM module and validated as a trace."),
+                text="Each behaviour takes the three IR functions of one generated module through evaluate; assemble; freeze; compute; re-value; compute; re-value(0); compute on the abstract machine; structure arrays are read-only and vals non-reallocatable for compute, results are compared with evaluate and with Denote. For a few small kernels TLC chooses the stored subset of every operand, so the history runs on every input pattern. The same history is run on the real LLVM module (also for kernels the machine cannot judge) and validated as a trace."),
     "C05": dict(engine="tla-kernelrun", technique="TLA+ model checking: every state of every behaviour of the real IR checked against a heap model (IRMachine fault states)",
                 text="The real IR is model-checked state by state: every load/store/realloc against a heap model with bounds, initialisation, liveness and ownership, every integer operation against int32, a step budget for termination; handed-back arrays must be live, long enough and initialised, nothing kernel-allocated unreachable. Initial capacities 1,2 (thorough 1,2,3,2^20). Native crashes are taken back to the machine. Assemble and compute kernels: the memory faults of the C04 histories (assemble; freeze; compute; re-value; compute) on the same machine. The sub-graph lattice of generate_subgraphs and its emission order are specified in Structure.tla and compared exhaustively with the real function; a deviation is a NOTE and the request exercising it is judged on the machine on every input pattern (only that verdict can be a violation)."),
     "C06": dict(engine="tla-kernelrun", technique="spec->code replay: IRMachine behaviours and IRGen.tla trees through the real ir_to_c/ir_to_llvm, compiled and compared",
